@@ -394,27 +394,24 @@ def group_form_integrals(form, domains, do_append_everywhere_integrals=True):
                     # this yields a list of the form [(coordinate derivative, integral), ...]
                     stripped_integrals_and_coordderivs = strip_coordinate_derivatives(ss_integrals)
 
-                    # now group the integrals by the coordinate derivative
-                    def calc_hash(cd):
-                        return sum(
-                            sum(tuple_elem._ufl_compute_hash_() for tuple_elem in tuple_)
-                            for tuple_ in cd
-                        )
-
+                    # now group the integrals by the coordinate derivative,
+                    # keeping the order of first occurrence (a hash of the
+                    # derivative depends on the hash seed of the process and
+                    # must not decide the order of the integrals)
                     coordderiv_integrals_dict = {}
                     for integral, coordderiv in stripped_integrals_and_coordderivs:
-                        coordderivhash = calc_hash(coordderiv)
-                        if coordderivhash in coordderiv_integrals_dict:
-                            coordderiv_integrals_dict[coordderivhash][1].append(integral)
+                        key = tuple(coordderiv)
+                        if key in coordderiv_integrals_dict:
+                            coordderiv_integrals_dict[key][1].append(integral)
                         else:
-                            coordderiv_integrals_dict[coordderivhash] = (coordderiv, [integral])
+                            coordderiv_integrals_dict[key] = (coordderiv, [integral])
 
                     # cd_integrals_dict is now a dict of the form
-                    # { hash: (CoordinateDerivative, [integral, integral, ...]), ... }
+                    # { CoordinateDerivative: (CoordinateDerivative, [integral, integral, ...]), ... }
                     # we can now put the integrals back together and then afterwards
                     # apply the CoordinateDerivative again
 
-                    for cdhash, samecd_integrals in sorted_by_key(coordderiv_integrals_dict):
+                    for samecd_integrals in coordderiv_integrals_dict.values():
                         # Accumulate integrands of integrals that share the
                         # same compiler data
                         integrands_and_cds = accumulate_integrands_with_same_metadata(
